@@ -66,7 +66,7 @@ def run(tier, seed):
             ok = p["eq"] and p["eq_rev"] and p["hash_eq"] and p["cmp"] == "Equal" and p["cmp_rev"] == "Equal" and p["bor_eq"] \
                 and p["bor_cmp"] == "Equal" and p["hashset_finds"] and p["btreeset_finds"]
             if not ok:
-                v.violation("plain and node-local form of the same identifier are not recognised as the same (==, hash, cmp, set lookup)", {**case, "obs": p})
+                v.violation("two forms (plain / node-local, or node-local with different opaque bytes) of the same identifier are not recognised as the same (==, hash, cmp, set lookup)", {**case, "obs": p})
     v.sample({"twins": len(tw)})
     v.cov["rule"] = ("TLC enumerates 8 identifiers (pid/port/ref; node names incl. UTF-8 and 256 bytes; 1..5 words; 64-bit port numbers) in plain form and with "
                      "3 node-local hashes, each in 13-14 contexts (tuple, list element, list tail, map key/value/both, fun environment, fun owner, nested twice); "
